@@ -149,3 +149,6 @@ pub(crate) struct Differences<'a, A: Afi> {
     old: Option<&'a Ranges<A>>,
     new: &'a Ranges<A>,
 }
+
+#[cfg(feature = "verif")]
+pub(crate) mod verif;
